@@ -658,7 +658,14 @@ def evaluate(t, env, mp=None):
                 if key in env:
                     r = env[key](*a)
                 else:
-                    raise KeyError("uninterpreted function %s" % name)
+                    # an uninterpreted function symbol: any interpretation is admissible for a counter-model;
+                    # use a fixed smooth one derived from the symbol's name (independent per symbol)
+                    import zlib
+                    k0 = (zlib.crc32(name.encode()) % 1000) / 100.0
+                    acc = conv(Q(int(k0 * 100), 100))
+                    for i_, z in enumerate(a):
+                        acc = acc + conv(Q(37 * (i_ + 1), 100)) * z
+                    r = conv(Q(13, 10)) + (math.sin(acc) if mp is None else mp.sin(acc))
         elif op == "ite":
             r = ev(u.args[1]) if ev(u.args[0]) else ev(u.args[2])
         elif op == "<":
